@@ -99,19 +99,20 @@ class World:
         return self.idx.get(id(node), -99)   # -99: an object the harness never saw
 
     # ---------------------------------------------------------------- construction
-    def new(self, name):
-        return self.track(Node(name))
+    def new(self, name, id=None):
+        return self.track(Node(name) if id is None else Node(name, id=id))
 
     @classmethod
     def build(cls, state, ns_via_api=False, **kw):
         """Constructively build real objects matching an abstract state.
         ns_via_api: establish namespace maps through add_namespace (realistic dict aliasing
         between parents and children) instead of assigning fresh dicts."""
+        ids = kw.pop("ids", None)      # optional i -> explicit node id (callers may hand the constructor any id, also a used one)
         w = cls(**kw)
         n = len(state["kids"])
         names = state.get("name") or ["a"] * n
         for i in range(n):
-            w.new(names[i])
+            w.new(names[i], ids(i + 1) if ids else None)
         for i in range(n):
             node = w.n(i + 1)
             if "content" in state:
@@ -147,7 +148,7 @@ class World:
         elif "ns" in state:
             for i in range(n):
                 w.n(i + 1).nsmap = {q: u for q, u in state["ns"][i]}
-        if "store" in state:
+        if "store" in state and not ids:
             keep = set(state["store"])
             for i in range(n):
                 if (i + 1) not in keep:
